@@ -206,8 +206,8 @@ fn records_lane(ctx: &mut Ctx, idx: u64) {
             let mut e = f::PackageListEntry::new(&tok(&mut r), &tok(&mut r), &tok(&mut r), prio);
             let nextra = r.below(4);
             for i in 0..nextra {
-                // keys and values without '=' and blanks
-                e.extra.insert(format!("{}{}", ["arch", "profile", "essential", "k"][i], if r.chance(1, 3) { "é" } else { "" }), ["any", "all", "yes", "v", "!stage1"][r.below(5)].to_string());
+                // keys without '=' and blanks; values are arbitrary whitespace-free tokens (a value may contain '=')
+                e.extra.insert(format!("{}{}", ["arch", "profile", "essential", "k"][i], if r.chance(1, 3) { "é" } else { "" }), ["any", "all", "yes", "v", "!stage1", "a=b", "x==", "=y"][r.below(8)].to_string());
             }
             let shape = format!("extras:{}", nextra.min(2));
             // the printed order of the extras must not depend on the instance: print repeatedly
